@@ -431,7 +431,7 @@ func c18Candidates(c *C18Case) []*C18Case {
 // RunC18 is the check for property C18.
 func RunC18(e *Env) (int, error) {
 	ev := e.Ev
-	n := int64(e.Pick(700, 12000))
+	n := e.N(700, 12000)
 	fn := func(run int64) harness.RunResult {
 		r := gen.New(e.Seed, "C18", run)
 		c := genC18(r)
@@ -442,6 +442,12 @@ func RunC18(e *Env) (int, error) {
 		if err != nil {
 			return harness.RunResult{Err: err}
 		}
+		for _, st := range c.States {
+			if o := obs.Outcomes[st]; o != nil {
+				e.Log(run, st, o.Status, o.Stdout, o.Stderr)
+			}
+		}
+		e.Log(run, c, obs.Clause, obs.Probed)
 		key := ""
 		if !c.Benign && obs.Probed {
 			js, _ := json.Marshal(c)
